@@ -258,6 +258,46 @@ def _landscape_class():
     return GridLandscape
 
 
+def execute_belt(case: dict) -> dict:
+    """world2index at the CENTRES of equatorial-belt pixels of a large map (pixel numbers beyond 2^24), in the precision
+    mode of the worker.  The centres are half a pixel away from every border, which float32 angles resolve in the belt
+    (not in the polar caps); the reference is healpy.pix2ang, which C17's exact model binds to the ring scheme."""
+    import healpy
+    import jax.numpy as jnp
+    import numpy as np
+    from furax.landscapes import HealpixLandscape
+
+    nside = case['nside']
+    pix = np.asarray(case['pix'], dtype=np.int64)
+    th, ph = healpy.pix2ang(nside, pix)
+    out = {'id': case['id'], 'exc': None}
+    try:
+        land = HealpixLandscape(nside, 'I')
+        got = np.asarray(land.world2index(jnp.asarray(th), jnp.asarray(ph))).astype(np.int64)
+        wrong = np.nonzero(got != pix)[0]
+        out['n'] = int(len(pix))
+        out['wrong'] = int(len(wrong))
+        out['first'] = [[int(pix[i]), int(got[i])] for i in wrong[:5]]
+    except Exception as exc:  # noqa: BLE001
+        out['exc'] = f'{type(exc).__name__}: {exc}'[:300]
+    return out
+
+
+def belt_cases(seed: int) -> list[dict]:
+    rng = random.Random(seed + 17)
+    out = []
+    for nside in (2048, 4096):
+        ncap = 2 * nside * (nside - 1)
+        npix = 12 * nside * nside
+        lo = max(ncap + 4 * nside * (nside // 2), 2 ** 24 + 1)        # well inside the belt and beyond 2^24
+        hi = npix - ncap - 4 * nside * (nside // 2)
+        pix = sorted(rng.randrange(lo, hi) for _ in range(400))
+        c = {'nside': nside, 'pix': pix}
+        c['id'] = fx.case_id(c)
+        out.append(c)
+    return out
+
+
 def execute(case: dict) -> dict:
     import warnings
 
@@ -305,6 +345,8 @@ def execute(case: dict) -> dict:
                 th, ph = healpy.pix2ang(nside, np.asarray(hits, dtype=np.int64))
                 th = jnp.asarray(np.asarray(th, dtype=np.float64).reshape(shp))
                 ph = jnp.asarray(np.asarray(ph, dtype=np.float64).reshape(shp))
+                if len(shp) == 1 and len(hits) >= 2 and len(set(hits)) >= 2 and float(jnp.ptp(th)) == 0.0 and sum(hits) % 2 == 0:
+                    th = th[0]          # a constant-elevation scan: scalar theta broadcast against the phi array
                 try:
                     cov = land.get_coverage(Sampling(th, ph, jnp.zeros_like(th)))
                     res.append({'cov': [int(v) for v in np.asarray(cov).ravel()], 'shape': list(cov.shape),
@@ -627,6 +669,21 @@ def run(tier: str, seed: int) -> int:
                 verd.report(key, clause, case, detail)
         per_mode['x64' if x64 else 'x32'] = cnt
         n_eval += cnt
+    belts = belt_cases(seed)
+    belt_stats = {}
+    for x64 in (True, False):
+        for c, o in zip(belts, fx.replay('c17', 'execute_belt', belts, x64=x64, procs=2, chunksize=1)):
+            mode = 'x64' if x64 else 'x32'
+            n_eval += o.get('n', 0)
+            if o['exc'] is not None:
+                verd.report(f"world2index:belt:raised:nside={c['nside']}:{mode}", 'world2index raises on in-scope input',
+                            dict(c, belt=True, x64=x64), o)
+            elif o['wrong']:
+                verd.report(f"world2index:belt:nside={c['nside']}:{mode}", 'world2index agrees with healpy (ring ordering)',
+                            dict(c, belt=True, x64=x64), o)
+            else:
+                n_ok += o['n']
+            belt_stats[f"{c['nside']}:{mode}"] = {'points': o.get('n'), 'wrong': o.get('wrong')}
     rc = verd.finish()
 
     nontrivial = (fx.nontrivial_count(pix, lambda c: c['tie'] or c['acc'] != [-1])
@@ -641,6 +698,7 @@ def run(tier: str, seed: int) -> int:
         'traces_validated_against_impl': n_ok,
         'evaluations': n_eval,
         'distinct_nontrivial': nontrivial,
+        'belt_pixel_centres_large_nside': belt_stats,
         'rule': 'cases = terminal states of the three MC_Landscape machines (pix: map shape x quarter-grid point; '
                 'cov: hit sequence; hpx: nside x pixel x representation x offsets), each replayed in float64 and '
                 'float32 mode (hpx float32: exact margin >= 1/16 only); evaluations = points/sequences x modes; '
@@ -681,6 +739,13 @@ def replay_file(path: str) -> int:
     doc = json.loads(open(path).read())
     case = doc['case'] if 'case' in doc else doc
     x64 = bool(case.get('x64', True))
+    if case.get('belt'):
+        o = fx.replay('c17', 'execute_belt', [case], x64=x64, procs=1)[0]
+        print(json.dumps(o, indent=1))
+        if o['exc'] is not None or o['wrong']:
+            print(f'VIOLATION property={PROP} replay={path}')
+            return 1
+        return 0
     out = fx.replay('c17', 'execute', [case], x64=x64, procs=1)[0]
     bad, ok = judge(case, out, x64)
     print(json.dumps({'case': case, 'observed': out, 'agreeing': ok,
